@@ -510,11 +510,18 @@ def run(ctx: Ctx) -> None:
     ctx.rule('R12.4', 'each trial guarded by n_results < n_trials with run(1); final save after the last trial', floor=1)
     ctx.rule('R12.5', 'interrupt handler saves again and re-raises; run() absorbs it', floor=3)
     ctx.trust('os.replace is atomic on one file system; json/gzip writers either complete or raise')
-    _r121(ctx)
-    _r122(ctx)
-    _r123(ctx)
-    _r123b(ctx)
+    with ctx.part():
+        _r121(ctx)
+    with ctx.part():
+        _r122(ctx)
+    with ctx.part():
+        _r123(ctx)
+    with ctx.part():
+        _r123b(ctx)
     from .c06 import class_mutable_rule
-    class_mutable_rule(ctx, 'R12.3', ['DirectSimulation', 'SplittingSimulation', 'BatchSimulation'])
-    _r124(ctx)
-    _r125(ctx)
+    with ctx.part():
+        class_mutable_rule(ctx, 'R12.3', ['DirectSimulation', 'SplittingSimulation', 'BatchSimulation'])
+    with ctx.part():
+        _r124(ctx)
+    with ctx.part():
+        _r125(ctx)
